@@ -24,6 +24,9 @@
 #include <mh_sha1_murmur3_x64_128.h>
 #include <rolling_hashx.h>
 #include <isal_crypto_api.h>
+#ifndef VERIF_VARIANT_P
+#include "vsched.h"
+#endif
 
 static const char *prop = "C16";
 static const char *mode = "lattice";
@@ -86,7 +89,8 @@ static void build_catalog(void)
 
 /* ---------- objects ---------- */
 #define NOBJ 10
-static vk_slot so[NOBJ];             /* real objects, one slot per argument position */
+static vk_slot soset[4][NOBJ];        /* real objects, one slot per argument position, one set per thread */
+static vk_slot *so = soset[0];
 static uint8_t *poison[NOBJ];       /* PROT_NONE targets */
 static uint8_t pool[1 << 16];
 static uint8_t rawkey[64];
@@ -396,8 +400,9 @@ extern int asm_check_self_tests_status(void);
 extern void asm_set_self_tests_status(int);
 /* harness shims replace _aes_self_tests / _sha_self_tests in self_tests.o (objcopy --redefine-sym) */
 static int shim_aes_ret, shim_sha_ret; static int shim_entered_aes, shim_entered_sha;
-int verif_aes_self_tests(void) { shim_entered_aes++; return shim_aes_ret; }
-int verif_sha_self_tests(void) { shim_entered_sha++; return shim_sha_ret; }
+static int latch_shim(int is_sha);
+int verif_aes_self_tests(void) { shim_entered_aes++; return latch_shim(0); }
+int verif_sha_self_tests(void) { shim_entered_sha++; return latch_shim(1); }
 extern int _aes_self_tests(void); extern int _sha_self_tests(void);
 static int fail_aes = 1, fail_sha = 1;   /* calibrated failure return values */
 
@@ -520,6 +525,190 @@ static void fips(void)
 }
 #endif
 
+
+/* ================= interleaving exploration (C17 latch, C18 first-call races) ================= */
+#ifndef VERIF_VARIANT_P
+typedef uint64_t (*fn10)(uint64_t, uint64_t, uint64_t, uint64_t, uint64_t, uint64_t, uint64_t, uint64_t, uint64_t, uint64_t);
+static uint64_t plain_call(void *fn, const uint64_t *a) { return ((fn10)fn)(a[0], a[1], a[2], a[3], a[4], a[5], a[6], a[7], a[8], a[9]); }
+enum { EV_RET = VS_EV_USER, EV_RET_API, EV_AES_ENTER, EV_AES_EXIT, EV_SHA_ENTER, EV_SHA_EXIT, EV_CALL };
+static void add_mutable(struct vs_config *c, void *p, unsigned sz) { if (p && c->naddrs < 80) { c->addrs[c->naddrs] = (uintptr_t)p; c->addr_size[c->naddrs++] = sz; } }
+static void emit_sched_violation(const char *prop_, const char *key, const char *msg, const int8_t *sched, int len, const char *what)
+{
+	char rj[1400]; int o = snprintf(rj, sizeof rj, "{\"what\":\"%s\",\"schedule\":[", what);
+	for (int i = 0; i < len && o < 1300; i++) o += snprintf(rj + o, sizeof rj - o, "%s%d", i ? "," : "", sched[i]);
+	snprintf(rj + o, sizeof rj - o, "]}");
+	vk_violation(prop_, key, rj, "%s [%s; schedule of %d thread choices in the replay artefact]", msg, what, len);
+}
+#endif
+
+#if defined(FIPS_MODE) && !defined(VERIF_VARIANT_P)
+static int latch_outcome;
+static int latch_mode_on;
+static int latch_shim(int is_sha)
+{
+	if (!latch_mode_on) return is_sha ? shim_sha_ret : shim_aes_ret;
+	vs_event(is_sha ? EV_SHA_ENTER : EV_AES_ENTER, 0);
+	vs_point(is_sha ? "sha_self_tests_running" : "aes_self_tests_running", 0);      /* others may run while the tests run */
+	int r = is_sha ? (latch_outcome == 2 ? fail_sha : 0) : (latch_outcome == 1 ? fail_aes : 0);
+	vs_event(is_sha ? EV_SHA_EXIT : EV_AES_EXIT, r);
+	return r;
+}      /* 0 pass, 1 AES fails, 2 SHA fails */
+static ISAL_SHA256_HASH_CTX_MGR latch_mgr[4] __attribute__((aligned(64)));
+static void **slot_sha256_init;
+static void body_selftests(int tid, void *arg) { (void)arg; (void)tid; int r = isal_self_tests(); vs_event(EV_RET, r); r = isal_self_tests(); vs_event(EV_RET, r); }
+static void body_api(int tid, void *arg) { (void)arg; vs_event(EV_CALL, 0); int r = isal_sha256_ctx_mgr_init(&latch_mgr[tid]); vs_event(EV_RET_API, r); r = isal_self_tests(); vs_event(EV_RET, r); }
+static void latch_reset(void) { self_test_status = 2; shim_entered_aes = shim_entered_sha = 0; }
+static void latch_unstick(void) { self_test_status = 1; }
+static uint64_t latch_extra(void) { uint64_t k[3] = { self_test_status, (uint64_t)shim_entered_aes, (uint64_t)shim_entered_sha }; return vk_hash(k, sizeof k, 5); }
+static int latch_check(char *msg, size_t n)
+{
+	const struct vs_event *ev = vs_events(); int ne = vs_nevents();
+	int aes = 0, sha = 0, finished = -1, verdict = latch_outcome ? ISAL_CRYPTO_ERR_SELF_TEST : 0;
+	for (int i = 0; i < ne; i++) {
+		if (ev[i].kind == EV_AES_ENTER) aes++;
+		if (ev[i].kind == EV_SHA_ENTER) sha++;
+		if (ev[i].kind == EV_SHA_EXIT && finished < 0) finished = i;
+	}
+	if (aes != 1 || sha != 1) { snprintf(msg, n, "self-tests executed %d (AES) / %d (SHA) times instead of exactly once", aes, sha); return 1; }
+	for (int i = 0; i < ne; i++) {
+		if ((ev[i].kind == EV_RET || ev[i].kind == EV_RET_API) && i < finished) { snprintf(msg, n, "thread %d's call returned %lld before the self-tests had finished", ev[i].tid, (long long)ev[i].v); return 1; }
+		if ((ev[i].kind == EV_RET || ev[i].kind == EV_RET_API) && ev[i].v != verdict) { snprintf(msg, n, "thread %d observed %lld, the verdict of the self-tests is %d", ev[i].tid, (long long)ev[i].v, verdict); return 1; }
+		if (ev[i].kind == VS_EV_ACCESS && slot_sha256_init && (uintptr_t)ev[i].v == (uintptr_t)slot_sha256_init && i < finished) { snprintf(msg, n, "thread %d started cryptographic work (entered the manager-init primitive) before the self-tests had finished", ev[i].tid); return 1; }
+	}
+	return 0;
+}
+static void latch(void)
+{
+	slot_sha256_init = vk_sym("_sha256_ctx_mgr_init_dispatched");
+	latch_mode_on = 1;
+	long item = 0;
+	for (int nthr = 1; nthr <= 4; nthr++) for (int oc = 0; oc < 3; oc++) for (int mix = 0; mix < 2; mix++) {
+		if (nthr == 1 && mix) continue;
+		if (item++ % vk_nshards != vk_shard) continue;
+		struct vs_config c; memset(&c, 0, sizeof c);
+		c.nthreads = nthr;
+		for (int t = 0; t < nthr; t++) c.body[t] = (mix && t == nthr - 1) ? body_api : body_selftests;
+		add_mutable(&c, &self_test_status, 4);
+		add_mutable(&c, slot_sha256_init, 8);
+		c.reset = latch_reset; c.check = latch_check; c.state_extra = latch_extra; c.unstick = latch_unstick;
+		c.preempt_bound = nthr == 4 ? (vk_thorough ? 3 : 2) : -1;
+		c.max_points = 300; c.max_executions = vk_thorough ? 4000000 : 400000;
+		latch_outcome = oc;
+		fail_aes = 1; fail_sha = -1;
+		struct vs_stats st; char msg[400]; int8_t sched[VS_MAXPTS]; int sl = 0;
+		char what[96]; snprintf(what, sizeof what, "threads=%d outcome=%s bodies=%s", nthr, oc == 0 ? "pass" : oc == 1 ? "aes_fails" : "sha_fails", mix ? "selftests+api" : "selftests");
+		int v = vs_explore(&c, &st, msg, sizeof msg, sched, &sl);
+		vk_stat("schedules", st.executions); vk_stat("states", st.states); vk_stat("transitions", st.transitions); vk_stat("scheduling_points", st.points);
+		vk_stat("pruned_revisits", st.pruned); vk_stat("preemption_bounded_out", st.bounded_out); vk_stat_max("max_points_in_one_execution", st.max_points_seen);
+		if (st.capped) vk_stat("execution_cap_hits", 1);
+		if (st.nondeterministic) vk_violation("C17", "harness:nondeterministic_replay", NULL, "a failing schedule did not fail again when replayed (%s)", what);
+		vk_note("latch %s: %llu schedules, %llu states, %llu transitions%s", what, (unsigned long long)st.executions, (unsigned long long)st.states, (unsigned long long)st.transitions, c.preempt_bound >= 0 ? " (preemption-bounded)" : " (unbounded preemptions, exhaustive)");
+		vk_distinct("configs", vk_hash(what, strlen(what), 1));
+		if (v) { char key[160]; snprintf(key, sizeof key, "latch:%s", strstr(msg, "times instead") ? "not_exactly_once" : strstr(msg, "before the self-tests") ? "early_return" : strstr(msg, "verdict") ? "verdict_mismatch" : strstr(msg, "progress") ? "deadlock" : "other"); emit_sched_violation("C17", key, msg, sched, sl, what); }
+	}
+	vk_faults_install();
+	latch_mode_on = 0;
+}
+#endif
+
+#ifndef VERIF_VARIANT_P
+/* ---- C18(b): simultaneous first calls of a dispatched entry point on per-thread objects ---- */
+static struct spec RS[4]; static uint64_t RA[4][12]; static const struct ent *race_ent;
+static uint8_t race_expect[4][NOBJ][512]; static uint64_t race_expect_ret[4];
+static void **all_slots[80]; static void *all_mbinit[80]; static void *seq_bind[80]; static int nslots;
+static int race_n;
+static void race_prepare(int tid)
+{
+	so = soset[tid];
+	build_spec(race_ent);
+	memcpy(&RS[tid], &S, sizeof S);
+	for (int i = 0; i < S.n; i++) RA[tid][i] = (!S.isptr[i] && S.is32[i]) ? (uint64_t)(uint32_t)S.valid[i] : S.valid[i];
+	for (int i = S.n; i < 12; i++) RA[tid][i] = 0;
+	prep_state(race_ent, RA[tid]);
+	so = soset[0];
+}
+static void race_body(int tid, void *arg) { (void)arg; uint64_t r = plain_call(race_ent->fn, RA[tid]); vs_event(EV_RET, (int64_t)r); }
+static void race_reset(void)
+{
+	for (int t = 0; t < race_n; t++) race_prepare(t);
+	for (int i = 0; i < nslots; i++) *all_slots[i] = all_mbinit[i];     /* every dispatched entry is a first call again */
+}
+static int race_is_int(const struct ent *e) { return e->cls != C_MHINIT || 1; }
+static int race_check(char *msg, size_t n)
+{
+	const struct vs_event *ev = vs_events(); int ne = vs_nevents();
+	for (int i = 0; i < nslots; i++) if (*all_slots[i] != all_mbinit[i] && *all_slots[i] != seq_bind[i]) { snprintf(msg, n, "dispatch slot #%d ended at %p, the sequential binding is %p", i, *all_slots[i], seq_bind[i]); return 1; }
+	for (int i = 0; i + 1 < ne; i++) if (ev[i].kind == VS_EV_ACCESS && ev[i + 1].kind == VS_EV_ACCESS_VAL) {
+		for (int k = 0; k < nslots; k++) if ((uintptr_t)ev[i].v == (uintptr_t)all_slots[k]) {
+			void *val = (void *)(uintptr_t)ev[i + 1].v;
+			if (val != all_mbinit[k] && val != seq_bind[k]) { snprintf(msg, n, "thread %d observed %p in dispatch slot #%d: neither the resolver stub nor the final target", ev[i].tid, val, k); return 1; }
+		}
+	}
+	for (int t = 0; t < race_n; t++) {
+		int got = 0; uint64_t r = 0;
+		for (int i = 0; i < ne; i++) if (ev[i].kind == EV_RET && ev[i].tid == t) { got = 1; r = (uint64_t)ev[i].v; }
+		if (!got) { snprintf(msg, n, "thread %d did not return", t); return 1; }
+		if (race_is_int(race_ent) && (int)r != (int)race_expect_ret[t]) { snprintf(msg, n, "thread %d's call returned %d, sequentially it returns %d", t, (int)r, (int)race_expect_ret[t]); return 1; }
+		for (int i = 0; i < RS[t].n; i++) if (RS[t].isptr[i] && RS[t].is_out[i]) {
+			size_t sz = RS[t].objsize[i] > 512 ? 512 : RS[t].objsize[i];
+			/* managers and contexts hold addresses of per-thread objects, identical between runs because objects are at fixed places */
+			if (memcmp(race_expect[t][i], (void *)(uintptr_t)RS[t].valid[i], sz)) { snprintf(msg, n, "thread %d: output argument %d differs from the sequential result", t, i); return 1; }
+		}
+	}
+	return 0;
+}
+static uint64_t race_extra(void) { uint64_t h = 9; for (int i = 0; i < nslots; i++) { void *v = *all_slots[i]; h = vk_hash(&v, sizeof v, h); } return h; }
+static void race(void)
+{
+	for (unsigned i = 0; i < vk_nsyms && nslots < 80; i++) {
+		const char *nme = vk_symtab[i].name; size_t l = strlen(nme);
+		if (l > 11 && !strcmp(nme + l - 11, "_dispatched")) {
+			char b[128]; snprintf(b, sizeof b, "%.*s_mbinit", (int)(l - 11), nme);
+			void *mb = vk_sym(b); if (!mb) continue;
+			all_slots[nslots] = vk_symtab[i].addr; all_mbinit[nslots] = mb; nslots++;
+		}
+	}
+	vk_stat_max("dispatch_slots", nslots);
+	long item = 0;
+	for (int ei = 0; ei < NE; ei++) {
+		const struct ent *e = &E[ei];
+		if (e->cls == C_SELFTEST) continue;
+		if (item++ % vk_nshards != vk_shard) continue;
+		if (vk_only && !strstr(e->name, vk_only)) continue;
+		if (vk_deadline_hit()) { vk_stat("deadline_skipped", 1); continue; }
+		race_ent = e;
+		for (race_n = 2; race_n <= (vk_thorough ? 4 : 3); race_n++) {
+			/* sequential reference: each thread's call alone, from re-armed slots */
+			race_reset();
+			for (int t = 0; t < race_n; t++) {
+				race_expect_ret[t] = plain_call(e->fn, RA[t]);
+				for (int i = 0; i < RS[t].n; i++) if (RS[t].isptr[i] && RS[t].is_out[i]) memcpy(race_expect[t][i], (void *)(uintptr_t)RS[t].valid[i], RS[t].objsize[i] > 512 ? 512 : RS[t].objsize[i]);
+			}
+			int touched = 0;
+			for (int i = 0; i < nslots; i++) { seq_bind[i] = *all_slots[i]; if (seq_bind[i] != all_mbinit[i]) touched++; }
+			if (!touched) { vk_stat("entries_without_dispatch", 1); break; }
+			struct vs_config c; memset(&c, 0, sizeof c);
+			c.nthreads = race_n;
+			for (int t = 0; t < race_n; t++) c.body[t] = race_body;
+			for (int i = 0; i < nslots; i++) if (seq_bind[i] != all_mbinit[i]) add_mutable(&c, all_slots[i], 8);
+			c.reset = race_reset; c.check = race_check; c.state_extra = race_extra;
+			c.preempt_bound = -1; c.max_points = 400; c.max_executions = vk_thorough ? 200000 : 20000;
+			struct vs_stats st; char msg[400]; int8_t sched[VS_MAXPTS]; int sl = 0; char what[128];
+			snprintf(what, sizeof what, "%s threads=%d slots=%d", e->name, race_n, touched);
+			int v = vs_explore(&c, &st, msg, sizeof msg, sched, &sl);
+			vk_stat("schedules", st.executions); vk_stat("states", st.states); vk_stat("transitions", st.transitions); vk_stat("scheduling_points", st.points);
+			vk_stat("pruned_revisits", st.pruned); vk_stat_max("max_points_in_one_execution", st.max_points_seen);
+			if (st.capped) vk_stat("execution_cap_hits", 1);
+			vk_distinct("raced_entry_points", vk_hash(e->name, strlen(e->name), race_n));
+			if (st.nondeterministic) vk_violation("C18", "harness:nondeterministic_replay", NULL, "a failing schedule did not fail again when replayed (%s)", what);
+			if (v) { char key[160]; snprintf(key, sizeof key, "%s:first_call_race", e->name); emit_sched_violation("C18", key, msg, sched, sl, what); }
+		}
+	}
+	for (int i = 0; i < nslots; i++) *all_slots[i] = all_mbinit[i];
+	vk_faults_install();
+}
+#endif
+
 int main(int argc, char **argv)
 {
 	const char *v;
@@ -528,10 +717,11 @@ int main(int argc, char **argv)
 	if (vk_opt("mode", &v)) mode = v;
 	if (!strcmp(prop, "C19")) vk_call_mode = VC_POISON_REGS;
 	if (ref_run_kats(0)) { fprintf(stderr, "reference KATs failed\n"); return 2; }
+	if (vk_want_wtrap) vk_wtrap_enable();
 	static char nm[NOBJ][8];
 	for (int i = 0; i < NOBJ; i++) {
 		snprintf(nm[i], sizeof nm[i], "arg%d", i);
-		vk_slot_init(&so[i], nm[i], 1 << 16, 0);
+		for (int t = 0; t < 4; t++) vk_slot_init(&soset[t][i], nm[i], 1 << 16, 0);
 		poison[i] = mmap((void *)(0x300000000000ULL + (uint64_t)i * 0x100000), 65536, PROT_NONE, MAP_PRIVATE | MAP_ANONYMOUS | MAP_FIXED_NOREPLACE, -1, 0);
 		if (poison[i] == MAP_FAILED) { perror("mmap poison"); return 2; }
 		poison[i] += 4096;    /* 64-byte aligned, well inside the inaccessible region */
@@ -556,7 +746,17 @@ int main(int argc, char **argv)
 		if (vk_shard == 0) twins();
 		vk_sample("isal_aes_gcm_enc_128: null_mask=0x44 (in, aad NULL) tag_len=15 -> must fail, remaining 5 pointers aimed at PROT_NONE pages; isal_sha256_ctx_mgr_submit flags=0x10 -> must fail; isal_aes_xts_dec_256 len=16777217 -> must fail");
 	}
+#ifndef VERIF_VARIANT_P
+	else if (!strcmp(mode, "race")) {
+		race();
+		vk_sample("isal_aes_gcm_pre_128 called for the first time by 2 threads on own objects: all interleavings of the accesses to _aes_keyexp_128_dispatched and _aes_gcm_precomp_128_dispatched (load by the stub, store by the resolver, reload), results compared with the sequential results");
+	}
+#endif
 #ifdef FIPS_MODE
+	else if (!strcmp(mode, "latch")) {
+		latch();
+		vk_sample("3 threads x {isal_self_tests(); isal_self_tests();}, SHA self-test fails: every interleaving of the accesses to self_test_status (load, lock cmpxchg, spin loads, publishing store) and of the running self-tests; oracle: tests entered once, nobody returns before they finish, all see ISAL_CRYPTO_ERR_SELF_TEST, no thread spins forever");
+	}
 	else if (!strcmp(mode, "fips")) {
 		fips();
 		vk_sample("latch=not_run outcomes=(sha fails,pass) calls=isal_aes_cbc_enc_128,isal_sha256_ctx_mgr_init: first call must enter the self-tests once, return ISAL_CRYPTO_ERR_SELF_TEST and leave out untouched; second call must still be refused");
